@@ -44,7 +44,7 @@ def generate(gen, tier):
         m = rng.randrange(0, 9)
         ks = gen.keyset(m)
         if rng.random() < 0.4:
-            ks = ks + [gen.key_obj(rng.choice(['vk.KU', 'vk.KV']), False) for _ in range(rng.choice([1, 2]))]
+            ks = ks + [gen.key_obj(rng.choice(['vk.KU', 'vk.KV', 'vk.Alpha.KZ', 'vk.KB']), False) for _ in range(rng.choice([1, 2, 3]))]
             rng.shuffle(ks)
         cases.append({'lines': [op('sorttwin', *ks)], 'o': {'kind': 'sort', 'keys': render(ks)}})
     n2 = 150 if tier == 'quick' else 5000
